@@ -278,8 +278,8 @@ def serial_sweep(run, prefixes, thorough=False):
             # tags of other instances that are textual prefixes of the live one (1_1 for 1_10..1_1f, 1_10 for 1_100 ...) and the first instance's tag
             us = tag.find('_')
             stale += [tag[:k] for k in range(us + 2, len(tag)) if tag[:k] not in stale]
-            if n > 1 and base_tag and base_tag != tag and base_tag not in stale:
-                stale.append(base_tag)
+            if n > 1 and base_tag and base_tag not in stale:
+                stale.append(base_tag)      # the first instance's tag - also when the live instance carries the very same text (serials that wrapped)
             for t in stale:
                 cands.append(('L', '-1 X login.svc %s :OK stale:1\n' % t))
                 cands.append(('L', '-1 X login.svc %s :NO stale refusal\n' % t))
